@@ -50,6 +50,28 @@ def search(method):
                 sa, sb = a._split_distribution, b._split_distribution
                 ca, cb = dict(sa.split_counts), dict(sb.split_counts)
                 ta_, tb_ = (sa.total_trees_counted, sa.sum_of_tree_weights), (sb.total_trees_counted, sb.sum_of_tree_weights)
+                if method == "__add__":
+                    la, lb = len(a), len(b)
+                    try:
+                        r = a + b
+                    except Exception as e:
+                        return desc, "raised %s: %s" % (type(e).__name__, str(e)[:100])
+                    ok, ls = _aligned(r)
+                    if r is a or r is b or not ok or len(r) != la + lb:
+                        return desc, "a + b: result is an operand / has parallel lists %s for %d + %d trees" % (ls, la, lb)
+                    if len(a) != la or len(b) != lb or not _aligned(a)[0] or not _aligned(b)[0]:
+                        return desc, "a + b changed an operand: %d -> %d and %d -> %d trees" % (la, len(a), lb, len(b))
+                    if dict(a._split_distribution.split_counts) != ca or dict(b._split_distribution.split_counts) != cb:
+                        return desc, "a + b changed the split counts of an operand"
+                    now = dict(r._split_distribution.split_counts)
+                    for k in set(ca) | set(cb) | set(now):
+                        if now.get(k, 0.0) != ca.get(k, 0.0) + cb.get(k, 0.0):
+                            return desc, "a + b: count of split %s is %r, the operands held %r + %r" % (bin(k), now.get(k, 0.0), ca.get(k, 0.0), cb.get(k, 0.0))
+                    # the operands are still independent of the result
+                    r.add_tree(__import__("dendropy").Tree.get(data="%s((A:1,B:1):1,(C:1,D:1):1);" % ("[&R] " if r._is_rooted_trees else "[&U] "), schema="newick", taxon_namespace=ns))
+                    if len(a) != la or len(b) != lb or not _aligned(a)[0] or not _aligned(b)[0]:
+                        return desc, "adding a tree to a + b changed an operand: %s / %s" % (_aligned(a)[1], _aligned(b)[1])
+                    continue
                 try:
                     if method == "update":
                         a.update(b)
@@ -84,7 +106,7 @@ def search(method):
 
 def replay_treearray(ctx, suite, c, ob, witness, bv_widths):
     method = c.name.split(".")[-1]
-    if method not in ("update", "extend", "__iadd__"):
+    if method not in ("update", "extend", "__iadd__", "__add__"):
         return False
     r = search(method)
     if r is not None:
